@@ -179,6 +179,8 @@ def run_traced(text, flags="", inputs=(), budget=200, online=False):
             ctx = holder.get("ctx")
             d = ([len(ctx.context_values), len(ctx.inputs), len(ctx.stacks), len(ctx.function_stack)]
                  if ctx else [0, 0, 0, 0])
+            # (taken now: forcing lazy values below may run -- and abort -- lambda bodies)
+            ctxv = _vj(ctx.context_values[-1]) if ctx and ctx.context_values else {"x": "empty"}
             # the module-level stack is the list registered in ctx.stacks[0]; forcing lazy values may
             # run (pure) lambda bodies, so it happens under the stdout capture, the probe budget and an alarm
             try:
@@ -201,7 +203,7 @@ def run_traced(text, flags="", inputs=(), budget=200, online=False):
     events.append({"ev": "Final", "stack": final_stack,
                    "out": common.cps(record[1] if online else cap.text), "d": d, "raised": raised,
                    "host": len(cap.text) if online else 0, "rec2": len(record[2]), "canary": canary,
-                   "ctx": _vj(ctx.context_values[-1]) if ctx and ctx.context_values else {"x": "empty"}})
+                   "ctx": ctxv})
     return {"text": common.cps(text), "flags": sorted(set(flags)),
             "inputs": [runner.value_json(x) if not isinstance(x, str) else {"s": common.cps(x)} for x in inputs],
             "online": bool(online), "ev": events}
